@@ -17,7 +17,7 @@ import itertools
 import json
 import signal
 
-from mc.core import Stats, lib_errors, shard_round_robin
+from mc.core import Stats, lib_errors, shard_round_robin, backend
 from checks import codec_common as CC
 
 PROPERTY = "C19"
@@ -306,6 +306,14 @@ def json_boundary(ctx):
 
 # ------------------------------------------------------------------------------------------ predicates
 def predicates(ctx):
+    st = Stats()
+    for serving in (True, False):
+        with backend(serving):
+            _predicates_once(ctx, st, serving)
+    return st
+
+
+def _predicates_once(ctx, st, serving):
     signal.signal(signal.SIGALRM, _alarm)
     from btclib import b32, b58
     from btclib.block import merkle_proof
@@ -317,7 +325,6 @@ def predicates(ctx):
     from btclib.script.engine.script import dsa_verify
     from btclib.script.engine.tapscript import ssa_verify
 
-    st = Stats()
     errs = lib_errors()
     n, p = ec.n, ec.p
     mh = hashlib.sha256(b"p").digest()
@@ -330,6 +337,7 @@ def predicates(ctx):
     MSGS = [mh, b"", bytes(31), bytes(33), "00" * 32]
 
     def total(key, f, case):
+        case = dict(case, bindings=serving)
         st.evals += 1
         st.nontrivial += 1
         signal.setitimer(signal.ITIMER_REAL, 3)
@@ -394,6 +402,53 @@ def predicates(ctx):
         total("C19/predicate/BasicBlockFilter.match", lambda: flt.match(el), {"element": el.hex()[:20], "declared": True})
         total("C19/predicate/BasicBlockFilter.match_any", lambda: flt.match_any([el, b"\x51"]), {"element": el.hex()[:20], "declared": True})
     total("C19/predicate/BasicBlockFilter.match_any", lambda: flt.match_any([]), {"element": "none", "declared": True})
+    # ---- well-formed inputs whose algebra lands on the point at infinity: a verdict, never an exception
+    from models import ec_ref as RR
+    from models.bip340_ref import G_K1, N_K1, P_K1
+    from models.bip340_ref import challenge as ch340
+    from models.bip340_ref import K1
+    for c_int in (1, 2, 0xDEADBEEF, int.from_bytes(mh, "big") % n):
+        m32 = c_int.to_bytes(32, "big")
+        for r_, s_ in ((Q[0], 1), (Q[0], 2), (mult(3)[0], n - 1)):
+            # ECDSA: Q' = -(c/r) G  =>  u1 G + u2 Q' = infinity
+            k = (-c_int * pow(r_, -1, n)) % n
+            if k == 0:
+                continue
+            Qinf = RR.mul_fast(k, G_K1, P_K1, 0)
+            total("C19/predicate/dsa.verify_/infinity", lambda: dsa.verify_(m32, Qinf, dsa.Sig(r_, s_, check_validity=False)), {"c": hex(c_int)[:12], "r": hex(r_)[:12], "s": s_ if s_ < 10 else "n-1", "declared": True})
+        # BIP340: s = e d  =>  s G - e P = infinity
+        for d in (1, 5, n - 1):
+            Pp = RR.mul_fast(d, G_K1, P_K1, 0)
+            dd = d if Pp[1] % 2 == 0 else n - d
+            for r_ in (Q[0], mult(7)[0]):
+                e = ch340(r_, Pp[0], m32, K1)
+                total("C19/predicate/ssa.verify_/infinity", lambda: ssa.verify_(m32, Pp[0], ssa.Sig(r_, e * dd % n, check_validity=False)), {"d": hex(d)[:10], "r": hex(r_)[:12], "declared": True})
+                total("C19/predicate/tapscript.ssa_verify/infinity", lambda: ssa_verify(m32, Pp[0].to_bytes(32, "big"), r_.to_bytes(32, "big") + (e * dd % n).to_bytes(32, "big")), {"d": hex(d)[:10], "declared": True})
+    # Bitcoin message signatures: a compact signature whose recovered key is the point at infinity (s K == c G)
+    from btclib.hashes import magic_message
+    for msg in (b"msg", b"", b"x" * 300):
+        mm = magic_message(msg)
+        real = bms.sign(msg, 5).dsa_sig
+        c_int = None
+        for cand in (int.from_bytes(hashlib.sha256(mm).digest(), "big") % n, int.from_bytes(mm, "big") % n):
+            w = pow(real.s, -1, n)
+            X = RR.add(RR.mul_fast(cand * w % n, G_K1, P_K1, 0), RR.mul_fast(real.r * w % n, Q, P_K1, 0), P_K1, 0)
+            if X is not None and X[0] % n == real.r:
+                c_int = cand     # the challenge the library's own signature satisfies: learnt, not assumed
+        if not c_int:
+            st.outcomes["bms-challenge-not-identified"] += 1
+            continue
+        K = RR.mul_fast(c_int, G_K1, P_K1, 0)
+        for a in (addr, b32.p2wpkh(b"\x02" + Q[0].to_bytes(32, "big"))):
+            for rf_base in (27, 31, 35, 39):
+                rf = rf_base + (K[1] & 1)
+                try:
+                    crafted = bms.Sig(rf, dsa.Sig(K[0], 1))
+                except errs:
+                    st.outcomes["crafted-sig-not-constructible"] += 1
+                    continue
+                for spelling in (crafted, crafted.b64encode()):
+                    total("C19/predicate/bms.verify/infinity", lambda: bms.verify(msg, a, spelling), {"msg_len": len(msg), "rf": rf, "addr": a[:8], "spelling": type(spelling).__name__, "declared": True})
     return st
 
 
@@ -435,6 +490,48 @@ def _consumer_shard(arg):
     return st
 
 
+def _shape_shard(arg):
+    """Every transaction shape (inputs x outputs) x spent script kind x input index x hash-type byte handed to the digest
+    functions and the engine: a refusal is the library's own exception, whatever the index/count relation."""
+    shapes, serving = arg
+    signal.signal(signal.SIGALRM, _alarm)
+    from btclib.script import sig_hash
+    from btclib.script.engine import verify_input, verify_transaction
+    from btclib.script.witness import Witness
+    from btclib.tx import OutPoint, Tx, TxIn, TxOut
+
+    st = Stats()
+    prevs = {"p2tr": b"\x51\x20" + bytes(range(1, 33)), "p2wpkh": b"\x00\x14" + bytes(20), "p2pkh": b"\x76\xa9\x14" + bytes(20) + b"\x88\xac",
+             "p2wsh": b"\x00\x20" + bytes(32), "p2sh": b"\xa9\x14" + bytes(20) + b"\x87", "bare": b"\x51"}
+    HTS = [0, 1, 2, 3, 0x81, 0x82, 0x83, 4, 0x80, 0x84, 0xFF]
+    with backend(serving):
+        for nin, nout in shapes:
+            for kind, spk in prevs.items():
+                for ht in HTS:
+                    sig = bytes(64) + (bytes([ht]) if ht else b"")
+                    wit = {"p2tr": [sig], "p2wpkh": [bytes(71) + bytes([ht]), b"\x02" + bytes(32)], "p2wsh": [b"\x51"]}.get(kind, [])
+                    vin = [TxIn(OutPoint(bytes([j + 1]) * 32, j), b"", 0xFFFFFFFD, Witness(wit), check_validity=False) for j in range(nin)]
+                    vout = [TxOut(10 + j, b"\x51", check_validity=False) for j in range(nout)]
+                    tx = Tx(2, 0, vin, vout, check_validity=False)
+                    prevouts = [TxOut(1000, spk, check_validity=False)] * nin
+                    for i in range(nin):  # an index outside the transaction is the caller's argument, not parsed data: outside C19
+                        case = {"nin": nin, "nout": nout, "prev": kind, "i": i, "ht": ht, "bindings": serving}
+                        st.nontrivial += 1
+                        contract_call(st, "C19/shape/sig_hash.from_tx", lambda t: sig_hash.from_tx(prevouts, t, i, ht), tx, case)
+                        contract_call(st, "C19/shape/sig_hash.taproot", lambda t: sig_hash.taproot(t, i, prevouts, ht, 0, b"", b""), tx, case)
+                        contract_call(st, "C19/shape/sig_hash.taproot-ext", lambda t: sig_hash.taproot(t, i, prevouts, ht, 1, b"\x50\x01", bytes(37)), tx, case)
+                        contract_call(st, "C19/shape/sig_hash.legacy", lambda t: sig_hash.legacy(spk, t, i, ht), tx, case)
+                        contract_call(st, "C19/shape/sig_hash.segwit_v0", lambda t: sig_hash.segwit_v0(spk, t, i, ht, 1000), tx, case)
+                        contract_call(st, "C19/shape/verify_input", lambda t: verify_input(prevouts, t, i), tx, case)
+                    contract_call(st, "C19/shape/verify_transaction", lambda t: verify_transaction(prevouts, t), tx, {"nin": nin, "nout": nout, "prev": kind, "ht": ht, "bindings": serving})
+    return st
+
+
+def consumer_shapes(ctx):
+    shapes = [(a, b) for a in (1, 2, 3) for b in (0, 1, 2, 3)]
+    return ctx.pmap(_shape_shard, [([sh], serving) for sh in shapes for serving in (True, False)])
+
+
 def consumers(ctx):
     E = CC.registry(ctx.seed)
     n = min(len(E["Tx.parse"].seeds), ctx.pick(2, 6))
@@ -447,4 +544,5 @@ SUBS = [
     ("json_boundary", json_boundary),
     ("predicates", predicates),
     ("consumers", consumers),
+    ("consumer_shapes", consumer_shapes),
 ]
